@@ -292,6 +292,11 @@ async fn run_script(
                     push(vec![6, 99]);
                 } else {
                     let mut w = req.output_stream(stype(a(1)));
+                    assert_eq!(w.stream(), stype(a(1)), "StreamWriter::stream()");
+                    if data.is_empty() {
+                        // an empty write is answered at once (it never waits for the output lock) and writes nothing
+                        assert!(matches!(w.write(&[]).await, Ok(0)), "an empty write must return Ok(0)");
+                    }
                     let r = w.write_all(&data).await;
                     push(vec![6, r.as_ref().map_or_else(errkind, |_| 0)]);
                     if let Err(e) = r {
@@ -306,6 +311,10 @@ async fn run_script(
                 if req.is_writeable() {
                     let mut w = req.output_stream(stype(a(1)));
                     let r = w.flush().await;
+                    if r.is_ok() {
+                        // closing a StreamWriter neither writes nor waits: the stream is ended by Request::close alone
+                        assert!(w.close().await.is_ok(), "StreamWriter::poll_close");
+                    }
                     push(vec![7, r.as_ref().map_or_else(errkind, |_| 0)]);
                 } else {
                     push(vec![7, 99]);
